@@ -32,7 +32,7 @@ TECHNIQUE = "TLA+ cluster spec, TLC exhaustive + negative controls; fault-inject
 
 def run(ctx):
     # quick: 3 nodes / 2 terms / 3 entries without configuration entries; thorough adds them, a third term, and coverage
-    vlib.tlc_mc(ctx, "MCCluster", ctx.pick("Cluster_mc_q.cfg", "Cluster_mc.cfg"), coverage=ctx.thorough, heap="20g", timeout=3000, vacuity_ok=("Restart",))
+    vlib.tlc_mc(ctx, "MCCluster", ctx.pick("Cluster_mc_q.cfg", "Cluster_mc.cfg"), coverage=ctx.thorough, heap="20g", timeout=3000, vacuity_ok=("Restart", "TakeSnapshot", "InstallSnapshot"))
     if ctx.thorough:
         vlib.tlc_mc(ctx, "MCCluster", "Cluster_mc_t3.cfg", coverage=False, heap="24g", timeout=6000)
         vlib.tlc_mc(ctx, "MCCluster", "Cluster_mc_restart.cfg", coverage=False, heap="16g", timeout=3000)   # + one node restart (volatile state lost)
